@@ -7,7 +7,8 @@
     that truth (harness/props/c02.py).  A and B are the exact rational shape expressions of
     the floats handed to the constructors; witnesses are untrusted. *)
 From Coq Require Import QArith Qreals Reals List.
-From D3 Require Import Base.Ops Base.Vec Base.RVec Spec.Convex Checker.Shapes Checker.Deep Checker.NarrowB.
+From D3 Require Import Base.Ops Base.Vec Base.RVec Spec.Convex Checker.Shapes Checker.Deep Checker.NarrowB
+                       Model.Simplex Model.JoltLoop Proofs.JoltLoop.
 Import ListNotations.
 
 (** every collider expression denotes a convex set *)
@@ -44,6 +45,21 @@ Theorem C02_classes_disjoint : forall A B da db p n d1 d2,
   overlap_cert A B da db p d1 = true -> gap_cert A B n d2 = true -> False.
 Proof. exact classes_disjoint. Qed.
 
+(** ** about the algorithm itself (model of gjk_intersection_jolt's step, Model/JoltLoop.v, exact reals,
+    ARBITRARY point sets given only through support points): the separating-axis exit
+    [search_direction . (p - q) < -EPSILON] answers NoIntersection, and then the sets really are
+    disjoint, every pair of points being at least EPSILON / |search_direction| apart — a False
+    through this exit is never wrong.  NOT proved: the converse directions ("never False when the
+    overlap is >= delta", "True only if dist <= tolerance") for the no-progress exit, and anything
+    about libccd / MPR / the Nesterov loops: those are judged per input against the certificates. *)
+Theorem C02_separating_axis_exit_sound : forall (A B : set3) tol p q s,
+  is_support A (idir s) p -> is_support B (vneg (idir s)) q ->
+  (dot (idir s) (vsub p q) < - Q2R (1 # 4503599627370496))%R ->
+  intersection_step tol p q s = IDone NoIntersection s /\
+  ~ intersect A B /\
+  forall a b, A a -> B b -> (Q2R (1 # 4503599627370496) <= norm (idir s) * norm (vsub a b))%R.
+Proof. exact separating_axis_exit_sound. Qed.
+
 (** Non-vacuity: the cube [-1,1]^3 and the ball of radius 2 around (2,0,0) share the point
     (1/2,0,0) at depth 1/2 (parallelepiped route for the cube, ball route for the sphere);
     the same cube and the unit ball around (3,0,0) are 1 apart (certified for 0.999: the square root bound is conservative by 2^-64); wrong claims are rejected. *)
@@ -70,4 +86,5 @@ Print Assumptions C02_deep_certificate_sound.
 Print Assumptions C02_overlap_certificate_sound.
 Print Assumptions C02_gap_certificate_sound.
 Print Assumptions C02_classes_disjoint.
+Print Assumptions C02_separating_axis_exit_sound.
 Print Assumptions C02_nonvacuous.
